@@ -421,6 +421,7 @@ def predict(cfg, rng, q=None, thorough=False, sub=None, stats=None):
             n += compare_matrices(q, q1, k, r2, bad, tag)
             n += compare_splines(q, q1, r2, bad, tag, tol=1e-9 if resolved else 1e-6)
             n += compare_Bmag(q, q1, r2, bad, tag, tol=1e-8 if resolved else 1e-6)
+            n += compare_toRZ(q, q1, r2, bad, tag, tol=1e-8 if resolved else 1e-6)
             if thorough and not resolved and q.nphi <= 61:
                 # once more at twice the resolution, where the 1e-8 clause is more likely to apply
                 cf = dict(cfg, nphi=2 * q.nphi + 1)
@@ -447,6 +448,55 @@ def predict(cfg, rng, q=None, thorough=False, sub=None, stats=None):
         if k == K:
             n += history(cfg, c1, q1, bad, tag)
     return out, n
+
+
+def compare_toRZ(qk, q1, rng, bad, tag, tol=1e-8):
+    """the point-wise converter of the two declarations returns the same (R, Z, phi) for the same (r, theta, phi0), in and beyond the first field period"""
+    per = TWO_PI / qk.nfp
+    pts = [[0.03, float(rng.random() * 6.28), float(rng.random() * per)], [0.03, 2.1, float(per + 0.3 * rng.random() * per)],
+           [0.02, 4.0, float(TWO_PI - 0.4 * rng.random() * per)]]
+    try:
+        A = np.array(qk.to_RZ(pts), dtype=float); B = np.array(q1.to_RZ(pts), dtype=float)
+    except Exception as e:
+        bad(tag + ':to_RZ', 'to_RZ raised %s' % type(e).__name__); return 1
+    sc = max(float(np.max(np.abs(B[0]))), 1e-300)
+    err = max(float(np.max(np.abs(A[0] - B[0]))) / sc, float(np.max(np.abs(A[1] - B[1]))) / sc, float(np.max(np.abs(A[2] - B[2]))))
+    if not err <= tol:
+        bad(tag + ':to_RZ', 'to_RZ of the two declarations differs by %.3g for the same (r, theta, phi0) (R, Z relative to R; phi absolute): phi %s vs %s' % (err, list(np.round(A[2], 6)), list(np.round(B[2], 6))))
+    return 1
+
+
+def compare_vmec(bad):
+    """fixed scenario: the VMEC export of an nfp=3 declaration and, IN THE SAME PROCESS afterwards, of its nfp=1 twin describe the same surface:
+    mode (m, n) of the former is mode (m, 3 n) of the latter and the twin has no other toroidal mode (nothing may be carried from one export to the next)"""
+    import tempfile, shutil
+    cfg = dict(rc=[1.0, 0.045], zs=[0.0, -0.045], nfp=3, etabar=-0.9, order='r1', nphi=9, sG=1, spsi=1, B0=1.0, sigma0=0.0, I2=0.0)
+    n = 0
+    tmp = tempfile.mkdtemp(prefix='c06vmec')
+    try:
+        qk, _ = build(cfg); q1, _ = build(replicated(cfg, 3))
+        with np.errstate(all='ignore'):
+            qk.to_vmec(os.path.join(tmp, 'input.k'), r=0.05, ntheta=6)
+            q1.to_vmec(os.path.join(tmp, 'input.1'), r=0.05, ntheta=6)
+        for name in ('RBC', 'ZBS'):
+            A, B = np.asarray(getattr(qk, name)), np.asarray(getattr(q1, name))      # [m, n + ntor]
+            ntk, nt1 = (A.shape[1] - 1) // 2, (B.shape[1] - 1) // 2
+            n += 1
+            if nt1 < 3 * ntk:
+                bad('vmec:' + name, 'to_vmec of the nfp=1 twin (nphi=%d) holds toroidal modes up to %d only, the nfp=3 declaration (nphi=%d) up to 3 x %d' % (q1.nphi, nt1, qk.nphi, ntk))
+                continue
+            sc = max(float(np.max(np.abs(A))), 1e-300)
+            want = np.zeros_like(B)
+            for nn in range(-ntk, ntk + 1):
+                want[:, 3 * nn + nt1] = A[:, nn + ntk]
+            err = float(np.max(np.abs(B - want))) / sc
+            if not err <= 1e-7:
+                bad('vmec:' + name, 'to_vmec: %s of the nfp=1 twin differs from the re-indexed %s of the nfp=3 declaration by %.3g (relative)' % (name, name, err))
+    except Exception as e:
+        bad('vmec:raise', 'to_vmec on the two declarations raised %s: %s' % (type(e).__name__, str(e)[:200])); n += 1
+    finally:
+        shutil.rmtree(tmp, ignore_errors=True)
+    return n
 
 
 def gen_for(rng, want_nfp, order, asym, signs, nphi):
@@ -479,11 +529,18 @@ def main():
     dist, stats = {}, {}
     if a.mode == 'replay':
         f = (json.load(open(a.file)).get('failing') or {})
-        if f.get('cfg'):
+        if f.get('fixed') == 'vmec-twin':
+            vv = []
+            res['predictions_checked'] = compare_vmec(lambda key, what, **kw: vv.append(dict(key=key, what=what, fixed='vmec-twin', **kw)))
+            res['violations'] = vv
+        elif f.get('cfg'):
             res['violations'], res['predictions_checked'] = safe_predict(f['cfg'], rng, thorough=bool(f.get('thorough')), sub=f.get('sub'))
         print(json.dumps(res, default=str)); return
     t0 = time.time(); tried = 0
     nn = a.n if a.mode == 'check' else 10 ** 6
+    vv = []
+    res['predictions_checked'] += compare_vmec(lambda key, what, **kw: vv.append(dict(key=key, what=what, fixed='vmec-twin', **kw)))
+    res['violations'] += vv; res['configs'] += 1; dist['fixed:vmec-twin'] = 1
     plan = [3, 2, 5, 3, 4, 3]          # declared nfp of the fine declaration; 3, 5: coinciding grids, 2, 4: matched resolution
     while tried < nn and (a.mode == 'check' or (time.time() - t0 < a.budget and not res['violations'])):
         K = plan[tried % len(plan)]
